@@ -31,7 +31,7 @@ def main():
     for d in sorted(glob.glob(os.path.join(VERIF, "hunt", "C*"))):
         pid = os.path.basename(d)
         items = []
-        for fn, pre in (("clean_findings.json", ""), ("r3_clean_findings.json", "r3-"), ("r4_clean_findings.json", "r4-"), ("r5_clean_findings.json", "r5-"), ("r6_clean_findings.json", "r6-"), ("r7_clean_findings.json", "r7-")):
+        for fn, pre in (("clean_findings.json", ""), ("r3_clean_findings.json", "r3-"), ("r4_clean_findings.json", "r4-"), ("r5_clean_findings.json", "r5-"), ("r6_clean_findings.json", "r6-"), ("r7_clean_findings.json", "r7-"), ("r8_clean_findings.json", "r8-")):
             try:
                 items += [(pre, it) for it in json.load(open(os.path.join(d, fn)))]
             except Exception:
